@@ -1,6 +1,6 @@
 /-
   C23 — tangent operator converters `tfel::material::convert<To, From>` (property theorems only).
-  All pairs, N = 1.
+  All pairs, N = 1 (the chained converters are proved on their own traced DAG).
   `Gen.N<d>_<TO>__<FROM>_r c c3 fn D f g s` is the stored result (list of rows) of the traced converter
   for the source operator `D` (arbitrary symbols, stored matrix), `F0` (`f`), `F1` (`g`) and the stored
   Cauchy stress `s`. The meaning of every flag (`lam*`, kinematic rates) is in Spec.lean. Each theorem
